@@ -15,6 +15,11 @@ def make_input(rng):
     decls = []
     for i in range(rng.randint(0, 2)):
         decls.append("CREATE TYPE e%d AS ENUM (%s);" % (i, ", ".join("'%s'" % l for l in rng.sample(["a", "b", "c"], 2))))
+    if rng.random() < 0.3:
+        # two independent enums whose constants get the same Go identifier (Event + type_click, EventType + click):
+        # whatever sqlc makes of the collision must not depend on which type is declared first
+        decls.append("CREATE TYPE event AS ENUM ('type_click', 'view');")
+        decls.append("CREATE TYPE event_type AS ENUM ('click', 'scroll');")
     tables = {}
     for t in names:
         cols = ["id"] + rng.sample(["name", "bio", "n", "tags", "created_at"], rng.randint(1, 3))
@@ -88,7 +93,8 @@ def run(tier, seed):
         jobs.append(job(decls, {"q.sql": queries}, flags, ov))
         qperm = list(queries); rng.shuffle(qperm)
         jobs.append(job(decls, {"q.sql": qperm}, flags, ov))
-        dperm = [d for d in decls if d.startswith("CREATE TYPE")] + rng.sample([d for d in decls if d.startswith("CREATE TABLE")], len([d for d in decls if d.startswith("CREATE TABLE")]))
+        tys = [d for d in decls if d.startswith("CREATE TYPE")]
+        dperm = rng.sample(tys, len(tys)) + rng.sample([d for d in decls if d.startswith("CREATE TABLE")], len([d for d in decls if d.startswith("CREATE TABLE")]))
         jobs.append(job(dperm, {"q.sql": queries}, flags, ov))
         k = rng.randrange(len(queries))
         moved = {"q.sql": [q for j, q in enumerate(queries) if j != k] or [], "r.sql": [queries[k]]}
@@ -117,7 +123,7 @@ def run(tier, seed):
             diff = sorted(f for f in r0["out"] if (rd.get("out") or {}).get(f) != r0["out"][f])
             names = " ".join(decls)
             klass = "struct_names_equal_up_to_case" if ("work_flow" in names and "workflow" in names) else None
-            rep.violation("reordering independent table declarations changes the output (%s)" % diff, replay, klass=None)
+            rep.violation("reordering independent type / table declarations changes the output (%s)" % diff, replay, klass=None)
         if rm.get("ok"):
             same = [f for f in r0["out"] if not f.endswith(".sql.go")]
             if any(rm["out"].get(f) != r0["out"][f] for f in same):
